@@ -48,8 +48,10 @@ the per-language readings `Cap.*.Reads` and `Cap.Kt.innerKeys`, `Cap.Go.anonOf`,
 namespace TsV.Capstone
 open TsV TsV.Syn TsV.Parser TsV.Pipeline TsV.Generate TsV.C03E TsV.Lang TsV.Cap
 
-/-- **Kotlin.** -/
-theorem run_guarantees_kotlin (E : Ext) (hU : E.U.AsciiCorrect) (cfg : Kotlin.Cfg) (targetOs : List Str)
+/-- **Kotlin.**  (`hcU`: the Unicode tables that `to_pascal_case` consults for the class names of sealed-class
+cases travel in `Kotlin.Cfg.U`; like `E.U` they must be right about ASCII.) -/
+theorem run_guarantees_kotlin (E : Ext) (hU : E.U.AsciiCorrect) (cfg : Kotlin.Cfg) (hcU : cfg.U.AsciiCorrect)
+    (targetOs : List Str)
     (pick : List ImportedType → Option ImportedType) (f : SourceFile) (outs : List (Str × Str))
     (h : run E (.kotlin cfg) false targetOs pick [f] = .ok (.outputs outs)) :
     ∃ (parsed items : List RustItem) (blocks : List Str) (d' : ParsedData),
@@ -121,7 +123,7 @@ theorem run_guarantees_kotlin (E : Ext) (hU : E.U.AsciiCorrect) (cfg : Kotlin.Cf
     obtain ⟨k, b, hk, hb, hw⟩ := Cap.Kt.block_of cfg hperm hpair hmem
     rw [recItem_enum] at hk hw
     obtain ⟨ds, hd, rfl⟩ := Cap.Kt.writeItem_enum cfg _ b hw
-    obtain ⟨inners, rest, hds, hi, hcl⟩ := Cap.Kt.enum_ok E hU cfg targetOs _ _ attrs ident gens vs e ds [] hparse hd
+    obtain ⟨inners, rest, hds, hi, hcl⟩ := Cap.Kt.enum_ok E hU cfg hcU targetOs _ _ attrs ident gens vs e ds [] hparse hd
     exact ⟨k, ds, inners, rest, hk, hd, hb, hds, hi, hcl⟩
   · intro t ht
     obtain ⟨k, b, hk, hb, hw⟩ := Cap.Kt.block_of cfg hperm hpair (List.mem_map.2 ⟨t, ht, rfl⟩)
@@ -695,7 +697,7 @@ example : ∃ (items : List RustItem) (blocks : List Str) (k kE : Nat) (d : Kotl
     k < kE := by
   obtain ⟨outs, hrun, _⟩ := exRun_kotlin
   obtain ⟨parsed, items, blocks, d', hp, _, _, _, _, _, hstruct, henum, _, _, hord⟩ :=
-    run_guarantees_kotlin E0 UnicodeOps.ascii_correct {} [] (fun _ => none) exSrc outs hrun
+    run_guarantees_kotlin E0 UnicodeOps.ascii_correct {} UnicodeOps.ascii_correct [] (fun _ => none) exSrc outs hrun
   have hp' : parsed = [.enum exE, .struct exS] := hp.trans exParsed
   subst hp'
   obtain ⟨k, d, hk, _, hb, hcl⟩ := hstruct [tsAttr] s%"Point" [] exFields exS exMemS exParseS
@@ -713,7 +715,7 @@ example : ∃ (d : Kotlin.KtDecl) (p : Kotlin.KtParam), (C04.Kt.params d)[1]? = 
     C04.Kt.isOptional p = true ∧ C04.Kt.stripOptional p = s%"String" := by
   obtain ⟨outs, hrun, _⟩ := exRun_kotlin
   obtain ⟨parsed, items, blocks, d', hp, _, _, _, _, _, hstruct, _⟩ :=
-    run_guarantees_kotlin E0 UnicodeOps.ascii_correct {} [] (fun _ => none) exSrc outs hrun
+    run_guarantees_kotlin E0 UnicodeOps.ascii_correct {} UnicodeOps.ascii_correct [] (fun _ => none) exSrc outs hrun
   have hp' : parsed = [.enum exE, .struct exS] := hp.trans exParsed
   subst hp'
   obtain ⟨k, d, _, _, _, hcl⟩ := hstruct [tsAttr] s%"Point" [] exFields exS exMemS exParseS
